@@ -111,7 +111,7 @@ def Ell.update (_e : Ell) (p : Pred) (scale : Vec) : Except Err Ell :=
 inductive Region where
   | rect (r : Rect)
   | ell (e : Ell)
-deriving Repr
+deriving DecidableEq, Repr
 
 def Region.update : Region → Pred → Vec → Except Err Region
   | .rect r, p, s => (r.update p s).map .rect
@@ -172,6 +172,23 @@ def refine (regs : List Region) (i k : Nat) : Option (List Region) :=
 def setIter (regs : List Region) (idx : List Nat) (b : Bool) : List Region :=
   regs.mapIdx (fun i r => if idx.contains i then
     (match r with | .rect q => .rect { q with iter := b } | e => e) else r)
+
+/-- one call on a design space -/
+inductive Op where
+  | upd (table : List Pred) (sc : Scale) (idx : List Nat)
+  | refine (i k : Nat)
+  | setIter (b : Bool) (idx : List Nat)
+
+/-- the state the design space is left in, and the exception raised (if any) -/
+def step (regs : List Region) : Op → List Region × Option Err
+  | .upd table sc idx => update regs table sc idx
+  | .refine i k => match refine regs i k with
+    | some regs' => (regs', none)
+    | none => (regs, some .indexError)
+  | .setIter b idx => (setIter regs idx b, none)
+
+/-- replay a sequence of calls (an exception leaves the partial state; the caller carries on) -/
+def run (regs : List Region) (ops : List Op) : List Region := ops.foldl (fun R o => (step R o).1) regs
 
 /-- Borderline test for the float comparison inside `checkIntersection`: with the comparisons moved
 by `±τ` the verdict changes. -/
